@@ -29,11 +29,11 @@ type resumeMsg struct {
 }
 
 type parkRec struct {
-	task  *task
-	point string
-	key   string
+	task     *task
+	point    string
+	key      string
 	canFault bool
-	ch    chan resumeMsg
+	ch       chan resumeMsg
 }
 
 type task struct {
@@ -235,7 +235,7 @@ type runLog struct {
 	berrs    map[string][]error         // key -> injected backend errors
 	callouts map[string]int
 	resumes  map[string][]int // task -> steps at which the controller resumed it
-	problems []string // violations noticed on task goroutines (reported by the controller)
+	problems []string         // violations noticed on task goroutines (reported by the controller)
 }
 
 func newRunLog() *runLog {
@@ -265,7 +265,9 @@ type buildErr struct {
 // Unwrap exposes a generated cause (context or cache sentinel errors a real builder may return).
 func (e *buildErr) Unwrap() error { return e.cause }
 
-func (e *buildErr) Error() string { return fmt.Sprintf("builderr:%s#%d@%s", e.task, e.n, keyName([]byte(e.key))) }
+func (e *buildErr) Error() string {
+	return fmt.Sprintf("builderr:%s#%d@%s", e.task, e.n, keyName([]byte(e.key)))
+}
 
 type injectedErr struct {
 	op   string
@@ -430,12 +432,12 @@ func (g *beWrapOf) Write(ctx context.Context, key []byte, v string) error {
 // ("wrote to cache"/"deleted cache entry", cache_write/cache_delete) never park.
 
 var yieldingMessages = map[string]bool{
-	"waiting for cache value":                   true,
-	"refreshing expired value":                  true,
-	"building cache value":                      true,
-	"failed to update stale cache value":        true,
+	"waiting for cache value":                    true,
+	"refreshing expired value":                   true,
+	"building cache value":                       true,
+	"failed to update stale cache value":         true,
 	"failed to update cache value in background": true,
-	"failed to cache update failure":            true,
+	"failed to cache update failure":             true,
 }
 
 var yieldingMetrics = map[string]bool{
@@ -444,12 +446,18 @@ var yieldingMetrics = map[string]bool{
 
 type errLogger struct{ s *sched }
 
-func (l errLogger) Error(ctx context.Context, msg string, _ ...interface{}) { l.s.logCallout(ctx, "error", msg) }
+func (l errLogger) Error(ctx context.Context, msg string, _ ...interface{}) {
+	l.s.logCallout(ctx, "error", msg)
+}
 
 type fullLogger struct{ errLogger }
 
-func (l fullLogger) Debug(ctx context.Context, msg string, _ ...interface{}) { l.s.logCallout(ctx, "debug", msg) }
-func (l fullLogger) Warn(ctx context.Context, msg string, _ ...interface{})  { l.s.logCallout(ctx, "warn", msg) }
+func (l fullLogger) Debug(ctx context.Context, msg string, _ ...interface{}) {
+	l.s.logCallout(ctx, "debug", msg)
+}
+func (l fullLogger) Warn(ctx context.Context, msg string, _ ...interface{}) {
+	l.s.logCallout(ctx, "warn", msg)
+}
 func (l fullLogger) Important(ctx context.Context, msg string, _ ...interface{}) {
 	l.s.logCallout(ctx, "important", msg)
 }
@@ -604,14 +612,14 @@ func (f foCfg) effFailedTTL() time.Duration {
 
 // world is one Failover instance with its wrapped real backend, scheduler and log.
 type world struct {
-	c    *Case
-	cfg  foCfg
-	s    *sched
-	log  *runLog
-	be   Backend
-	fe   frontend
-	ct   *countTracker
-	name string
+	c           *Case
+	cfg         foCfg
+	s           *sched
+	log         *runLog
+	be          Backend
+	fe          frontend
+	ct          *countTracker
+	name        string
 	wrap        *beWrap
 	faultAtCall int
 	lossy       bool
@@ -691,17 +699,17 @@ type getSpec struct {
 	skipRead bool
 	// builder script: outcome of the invocation made for this Get (a Get builds at most once)
 	buildFails bool
-	errKind    int // 0 plain, 1 wraps context.Canceled, 2 wraps context.DeadlineExceeded, 3 wraps cache.ErrNotFound, 4 wraps cache.ErrExpired
+	errKind    int             // 0 plain, 1 wraps context.Canceled, 2 wraps context.DeadlineExceeded, 3 wraps cache.ErrNotFound, 4 wraps cache.ErrExpired
 	builderTTL []time.Duration // WithTTL(ctx, t, true) calls made by the builder
 	// post-return caller actions
-	poison    int // 0 = 0xAA fill, 1 = overwrite with otherKey, 2 = leave
-	otherKey  []byte
-	cancel    bool
+	poison       int // 0 = 0xAA fill, 1 = overwrite with otherKey, 2 = leave
+	otherKey     []byte
+	cancel       bool
 	cancelBefore bool // cancel the context before calling Get (C06)
 	deadline     bool // caller context carries a deadline
 
-	buf    []byte
-	ctx    context.Context
+	buf      []byte
+	ctx      context.Context
 	cancelFn context.CancelFunc
 }
 
